@@ -121,3 +121,31 @@ pub proof fn lemma_reader_to_predictor(bs: Seq<PreflateTokenBlock>)
     let pre = bs.drop_last(); let b = bs.last();
     assert(blks_end(0, bs) == x.len());
 }
+
+// ---- from the reader's view to the offset view the estimators use (spec/offs.rs) ----
+pub proof fn lemma_toks_offs(t0: Seq<u8>, ts: Seq<PreflateToken>)
+    requires tokens_fit(t0, ts),
+    ensures toks_back_ok(t0.len() as int, ts), apply_tokens(t0, ts).len() == t0.len() + toks_span(ts),
+    decreases ts.len()
+{
+    if ts.len() > 0 {
+        let pre = ts.drop_last(); let t = ts.last();
+        lemma_toks_offs(t0, pre);
+        let tp = apply_tokens(t0, pre);
+        match t {
+            PreflateToken::Literal(l) => { }
+            PreflateToken::Reference(r) => { lemma_lz_copy_len(tp, r.dist as int, ref_len(r) as nat); }
+        }
+    }
+}
+pub proof fn lemma_blocks_offs(bs: Seq<PreflateTokenBlock>)
+    requires blocks_fit(bs),
+    ensures blks_back_ok(bs), blks_span(bs) == blocks_text(bs).len(),
+    decreases bs.len()
+{
+    if bs.len() > 0 {
+        let pre = bs.drop_last(); let b = bs.last();
+        lemma_blocks_offs(pre);
+        if !(b.block_type is Stored) { lemma_toks_offs(blocks_text(pre), b.tokens@); }
+    }
+}
